@@ -107,6 +107,10 @@ def run(ctx):
         written = src if cast is None else src.astype(cast)
         if cast is not None:
             vals = [int(x) if float(x) == int(x) else float(x) for x in written.tolist()]
+        if not indexed and rng.random() < 0.5:
+            # without an index type the first channel is an ordinary one: several samples per row must not count as rows
+            src = np.stack([src] * rng.choice([2, 3, 4]), axis=1)
+            ctx.stat('K-index', 'unindexed_2d_first_channel')
         ch = lf.add_channel('IDX', data=src, units=units, **({'cast_dtype': np.dtype(cast).type} if cast else {}))
         ch2 = lf.add_channel('OTHER', data=np.arange(rows, dtype=np.float64))
         from dliswriter import AttrSetup
